@@ -10,6 +10,7 @@ only add dependences (possible false alarm, never a missed flow).
 reference (e.g. `to_labels(&self.condition)`): which fields of the pointee a function
 (transitively) reads.
 """
+import re
 from .expr import ExprBuilder, walk, root_of, show
 from .mir import callee_name
 
@@ -386,12 +387,23 @@ class Taint:
             l = pl["local"]
             if l in self.closures:
                 return l
-            # a copy / reference of a closure local
-            for d in self.b.defs().get(l, []):
-                if d[1] != "term" and d[2]["rv"]["k"] in ("use", "ref"):
-                    src = d[2]["rv"].get("op", {}).get("place") or d[2]["rv"].get("place")
-                    if src and src["local"] in self.closures:
-                        return src["local"]
+            # a copy / reference of a closure local, through any number of plain moves (argument
+            # temporaries, the parameter copy of an inlined helper)
+            seen = {l}
+            cur = l
+            for _ in range(8):
+                nxt = None
+                for d in self.b.defs().get(cur, []):
+                    if d[1] != "term" and d[2]["rv"]["k"] in ("use", "ref"):
+                        src = d[2]["rv"].get("op", {}).get("place") or d[2]["rv"].get("place")
+                        if src and src["local"] in self.closures:
+                            return src["local"]
+                        if src and not src["proj"] and src["local"] not in seen:
+                            nxt = src["local"]
+                if nxt is None:
+                    break
+                seen.add(nxt)
+                cur = nxt
         return None
 
     def _analyse_closure(self, cl, others_tainted):
@@ -506,6 +518,18 @@ class Taint:
                                 changed |= self._taint_loc(tg, ("closure-write", bb, ci))
                     if ret:
                         res_t = True
+                        # a direct invocation `f(args)` (Fn*::call*): the closure may have written
+                        # tainted data through a `&mut` parameter - the referents of the argument
+                        # tuple change in the caller
+                        cn_ = callee_name(t["callee"]) if t["callee"]["k"] == "fndef" else ""
+                        if re.search(r"ops::Fn(Once|Mut)?::call(_once|_mut)?$", cn_):
+                            for k2, a2 in enumerate(t["args"]):
+                                if k2 == k:
+                                    continue
+                                for pl in operand_places(a2):
+                                    tgs = self.pts.get(pl["local"]) if not pl["proj"] else self._targets(pl)
+                                    for tg in (tgs or {(pl["local"], None)}):
+                                        changed |= self._taint_loc(tg, ("closure-param-write", bb, k))
                 if res_t or bb in ctrl:
                     changed |= self.taint_place(t["dest"], ("call-result", bb, callee_name(t["callee"]) if t["callee"]["k"] == "fndef" else "?", [k for k, x in enumerate(at) if x], "ctrl" if bb in ctrl else ""))
                 for k, (a, ti) in enumerate(zip(t["args"], t.get("arg_tys") or [])):
@@ -526,6 +550,16 @@ class Taint:
         index = self.source[2]
         if not remaining and index is not None and ("Index<" in name or "IndexMut<" in name) and len(t["args"]) == 2 and k == 0:
             j = t["args"][1]
+            # the index may reach the call through plain copies of a constant (e.g. the parameter
+            # copy of an inlined helper called with a literal)
+            n_ = 0
+            while j.get("k") in ("move", "copy") and not j["place"]["proj"] and n_ < 6:
+                ds_ = [d for d in self.b.defs().get(j["place"]["local"], []) if not self.b.is_cleanup(d[0])]
+                if len(ds_) == 1 and ds_[0][1] != "term" and ds_[0][2]["rv"]["k"] == "use":
+                    j = ds_[0][2]["rv"]["op"]
+                    n_ += 1
+                else:
+                    break
             if j.get("k") == "const" and "int" in j:
                 return int(j["int"]) == index
             return True
